@@ -179,13 +179,18 @@ Qed.
 Lemma or_close_sound h : or_close h = true <-> sp_close h.
 Proof.
   unfold or_close, sp_close. rewrite forallb_forall. split.
-  - intros H j x o Hn Hcl. specialize (H (j, (x, o)) (proj2 (steps_ix_In _ _ _) Hn)).
-    cbn [fst snd] in H. rewrite implb_iff in H. specialize (H Hcl).
-    apply andb_true_iff in H as [H1 H2]. split; [apply Z.eqb_eq; exact H1|].
-    rewrite forallb_forall in H2. intros e He. apply Nat.leb_le. apply H2; exact He.
-  - intros H [j [x o]] Hn. apply steps_ix_In in Hn. cbn [fst snd]. rewrite implb_iff. intros Hcl.
-    destruct (H j x o Hn Hcl) as [H1 H2]. apply andb_true_iff. split; [apply Z.eqb_eq; exact H1|].
-    rewrite forallb_forall. intros e He. apply Nat.leb_le. apply H2; exact He.
+  - intros H j x o Hn. specialize (H (j, (x, o)) (proj2 (steps_ix_In _ _ _) Hn)).
+    cbn [fst snd] in H. apply andb_true_iff in H as [Ha Hb]. rewrite implb_iff in Ha, Hb. split.
+    + intros Hcl. apply Z.ltb_lt in Hcl. specialize (Ha Hcl).
+      apply andb_true_iff in Ha as [H1 H2]. split; [apply Z.eqb_eq; exact H1|].
+      rewrite forallb_forall in H2. intros e He. apply Nat.leb_le. apply H2; exact He.
+    + intros Hp. apply Z.eqb_eq. apply Hb. apply Z.eqb_eq; exact Hp.
+  - intros H [j [x o]] Hn. apply steps_ix_In in Hn. cbn [fst snd].
+    destruct (H j x o Hn) as [Ha Hb]. apply andb_true_iff. split; rewrite implb_iff.
+    + intros Hcl. apply Z.ltb_lt in Hcl. destruct (Ha Hcl) as [H1 H2].
+      apply andb_true_iff. split; [apply Z.eqb_eq; exact H1|].
+      rewrite forallb_forall. intros e He. apply Nat.leb_le. apply H2; exact He.
+    + intros Hp. apply Z.eqb_eq in Hp. apply Z.eqb_eq. apply Hb; exact Hp.
 Qed.
 
 (* ---- all clauses -------------------------------------------------------------------------- *)
@@ -200,14 +205,14 @@ Qed.
 (* non-vacuity: a history with executions, a removal and a Close that satisfies the spec, and one
    with a stranded item that does not *)
 Example spec_holds_example :
-  spec 0 [ (SOp (OEnq (mkItem 1 1000000 7)), mkObs [] 3 1000000 false);
-           (SOp (OEnq (mkItem 2 3000000 8)), mkObs [] 3 1000000 false);
-           (SOp (ODeq 2), mkObs [] 3 1000000 false);
-           (SOp (OAdv 1000000), mkObs [(7, 1000000)] 0 0 false);
-           (SOp OClose, mkObs [] 0 0 true) ].
+  spec 0 [ (SOp (OEnq (mkItem 1 1000000 7)), mkObs [] 3 1000000 0);
+           (SOp (OEnq (mkItem 2 3000000 8)), mkObs [] 3 1000000 0);
+           (SOp (ODeq 2), mkObs [] 3 1000000 0);
+           (SOp (OAdv 1000000), mkObs [(7, 1000000)] 0 0 0);
+           (SOp OClose, mkObs [] 0 0 1) ].
 Proof. apply oracle_sound. vm_compute. reflexivity. Qed.
 
 Example spec_fails_on_stranded :
-  ~ spec 0 [ (SOp (OEnq (mkItem 1 1000000 7)), mkObs [] 0 0 false);
-             (SOp (OAdv 2000000), mkObs [] 0 0 false) ].
+  ~ spec 0 [ (SOp (OEnq (mkItem 1 1000000 7)), mkObs [] 0 0 0);
+             (SOp (OAdv 2000000), mkObs [] 0 0 0) ].
 Proof. intros H. apply oracle_sound in H. vm_compute in H. discriminate H. Qed.
